@@ -21,15 +21,15 @@ def run_config(ctx, binary, n, seed, profile, schema_line=None):
     return [l for l in so.split("\n") if l]
 
 
-def run_corpus(ctx, binary, prop):
-    """minimised past failures and directed shapes run first"""
+def run_corpus(ctx, binary, prop, split=False):
+    """minimised past failures and directed shapes run first (split: one result per delivered subscription event)"""
     import glob, os
     cases = []
     for f in sorted(glob.glob(os.path.join(vf.VERIF, "corpus", prop, "*.jsonl"))):
         cases += [l for l in open(f).read().split("\n") if l.strip()]
     if not cases:
         return []
-    rc, so, se = vf.sh([binary, "-mode", "run"], inp="\n".join(cases) + "\n", timeout=600)
+    rc, so, se = vf.sh([binary, "-mode", "run"] + (["-split"] if split else []), inp="\n".join(cases) + "\n", timeout=600)
     if rc != 0:
         raise RuntimeError("corpus run failed rc=%s: %s" % (rc, se[-3000:]))
     return [l for l in so.split("\n") if l]
@@ -97,8 +97,21 @@ def classify(r):
             tags.add("field-executable-directive-fault")
     if q.startswith("mutation"):
         tags.add("mutation")
+    if any(i["path"] == "" and i["hook"].startswith("directive:") for i in r["log"]):
+        tags.add("operation-directive")
+        if any(i["path"] == "" and i["hook"].startswith("directive:") and i["kind"] != "value" for i in r["log"]):
+            tags.add("operation-directive-refuses")
+    bypath = Counter(i["path"] for i in r["log"] if i["hook"].startswith("directive:") and i["hook"] != "directive:~around" and i["path"])
+    if any(v >= 2 for v in bypath.values()):
+        tags.add("field-with-several-schema-directives")
+        if any(i["kind"] != "value" and bypath[i["path"]] >= 2 for i in r["log"] if i["hook"].startswith("directive:") and i["path"]):
+            tags.add("several-schema-directives-one-refuses")
     if q.startswith("subscription"):
         tags.add("subscription-event")
+        if "operation-directive" in tags:
+            tags.add("subscription-operation-directive")
+            if "operation-directive-refuses" in tags:
+                tags.add("subscription-operation-directive-refuses")
         if r.get("event"):
             tags.add("subscription-later-event")
     for i in r["log"]:
@@ -149,6 +162,20 @@ def subscribe_failed(r):
     return ""
 
 
+def stream_shape(r):
+    """subscriptions: what is wrong with the SEQUENCE of responses (the content of each is the model's to judge).
+    A result the runner did not split into events is a subscription whose stream was never created (the stream
+    resolver or an operation-level directive around it failed): exactly one response, then the end of the stream."""
+    if not r["query"].startswith("subscription"):
+        return []
+    why = []
+    if r.get("unended"):
+        why.append("stream-did-not-end")
+    if len(r["payloads"]) != 1:
+        why.append("responses:%d" % len(r["payloads"]))
+    return why
+
+
 def run(ctx):
     if getattr(ctx, "replay", None):
         from checks import execreplay
@@ -168,10 +195,12 @@ def run(ctx):
     # argument-unmarshalling context, from the method-syntax and the function-syntax package
     ok_extract = ok_extract and not isinstance(built.get("follow_funcsyn_wl2"), Exception) and ctx.extract(
         "ArgCtxFacts", arg=gensrv.gen_dir("exec", "base") + "," + gensrv.gen_dir("exec", "follow_funcsyn_wl2"))
-    proved = ctx.prove(props=["GqlgenVerif.Props.C01"] + (["GqlgenVerif.Props.C01Gen"] if ok_extract else []))
+    # where a field's directive chain comes from (bindField operand order, ImplDirectives location filter), from codegen/field.go
+    ok_extract = ok_extract and ctx.extract("FieldDirFacts")
+    proved = ctx.prove(props=["GqlgenVerif.Props.C01"] + (["GqlgenVerif.Props.C01Gen", "GqlgenVerif.Props.C01Dirs"] if ok_extract else []))
     if not ok_extract:
         proved = False
-        ctx.proof_failure = ["Gen/ListFacts or Gen/ArgCtxFacts could not be regenerated from the generated servers (broken tie)"]
+        ctx.proof_failure = ["Gen/ListFacts, Gen/ArgCtxFacts or Gen/FieldDirFacts could not be regenerated (broken tie)"]
     if not proved:
         ctx.cov["proof_failure"] = ctx.proof_failure
     # the same schema plus a directive `on FIELD`: field.gotpl then emits its _fieldMiddleware flavour
@@ -222,7 +251,7 @@ def run(ctx):
             continue
         if cfg.startswith("execsub:"):
             schema = schema_of(b, "subschema")
-            lines = run_config(ctx, b, max(200, n // 3), ctx.seed, "sub")
+            lines = run_corpus(ctx, b, "C01sub", split=True) + run_config(ctx, b, max(200, n // 3), ctx.seed, "sub")
         else:
             schema = schema_of(b)
             lines = run_corpus(ctx, b, "C01") + run_config(ctx, b, n, ctx.seed, "c01")
@@ -236,6 +265,10 @@ def run(ctx):
                 continue
             if r.get("crash") or r.get("hung"):
                 divs.append((cfg, r, m, ["crash" if r.get("crash") else "hung"]))
+                continue
+            ss = stream_shape(r)
+            if ss:
+                divs.append((cfg, r, json.loads(m) if m.startswith("{") else m, ss))
                 continue
             tags = classify(r)
             for t in tags:
@@ -339,7 +372,7 @@ def run(ctx):
                "impl": r["payloads"], "model": mj, "shape": shape,
                "replay": "echo '<case json>' | <generated server> -mode run   (case = query+variables+plan of this file)"}
         # a divergence in data/errors/invocations against a model proved equal to the Spec is a concrete failing input
-        failing = bool(spec_bad) or any(w in ("data", "errors", "invocations", "recovers", "crash", "hung") or w.startswith("config-") or w.startswith("subscribe-failure") for w in why)
+        failing = bool(spec_bad) or any(w in ("data", "errors", "invocations", "recovers", "crash", "hung") or w.startswith("config-") or w.startswith("subscribe-failure") or w.startswith("stream-") or w.startswith("responses") for w in why)
         ctx.violation(rep, no_failing_input=not failing)
     if not proved and not ctx.violations:
         ctx.violation({"kind": "proof", "failing": ctx.proof_failure}, no_failing_input=True)
